@@ -359,6 +359,338 @@ def cases(draw, thorough):
 
 
 # --------------------------------------------------------------------------
+# listed known findings: trigger switched off in the generated case (exclusion by construction)
+# --------------------------------------------------------------------------
+#
+# The search draws the full feature set; ``normalise`` then removes the trigger of every listed root cause from the case
+# and counts it with ctx.exclude. The triggers live on in the committed minimal replays (replays/C43/*.json), which the
+# runner replays on every run. Two kinds:
+#
+# * PROBED: defects of Fixer / the conservative backend that make most fixed files unusable. The committed replay of the
+#   finding is the probe: it is evaluated (text oracles only) once per process on the tree under test; the trigger is
+#   switched off only while the replay still reproduces its signature. Once loki is fixed the feature is generated again
+#   without any edit here (and the `known:` line falls silent; it should then be turned into a `fixed:` line).
+# * STATIC: defects of DynamicUboundCheckRule that need the differential (compile-and-run) oracle to show; always off.
+
+SIG_MODULE = 'C43:relint:procedure-left-unfixed:module-procedure'
+SIG_MEMBER = 'C43:relint:procedure-left-unfixed:member-procedure'
+SIG_IF1 = 'C43:fixed-file-broken:one-line-if-statement-repeated-after-its-condition'
+SIG_WHERE1 = 'C43:fixed-file-broken:one-line-where-statement-repeated-after-its-mask'
+SIG_ELSEIF = 'C43:fixed-file-broken:block-if-written-as-else-if'
+SIG_ELSEIF3 = 'C43:fix-raises:TypeError@loki/backend/fgencon.py:visit_Conditional'
+SIG_CONTHEAD = 'C43:fixed-file-broken:continued-block-header-truncated-to-first-line'
+SIG_NESTED = 'C43:relint:Fortran90OperatorsRule:statement-nested-in-fixed-construct-left-unfixed'
+
+PROBED = [
+    # (exclusion name, replay file, signature)
+    ('module-procedures', 'replays/C43/module-procedure-left-unfixed.json', SIG_MODULE),
+    ('internal-procedures', 'replays/C43/member-procedure-left-unfixed.json', SIG_MEMBER),
+    ('one-line-if', 'replays/C43/one-line-if-statement-repeated.json', SIG_IF1),
+    ('one-line-where', 'replays/C43/one-line-where-statement-repeated.json', SIG_WHERE1),
+    ('fixed-block-if-inside-else-if-branch', 'replays/C43/block-if-written-as-else-if.json', SIG_ELSEIF),
+    ('if-construct-with-two-or-more-else-if-branches', 'replays/C43/else-if-chain-type-error.json', SIG_ELSEIF3),
+    ('continued-header-of-unfixed-block', 'replays/C43/continued-block-header-truncated.json', SIG_CONTHEAD),
+    ('old-style-operator-hidden-below-fixed-construct', 'replays/C43/nested-statement-left-unfixed.json', SIG_NESTED),
+]
+STATIC = ['ubound-check-against-local-variable', 'ubound-check-against-smaller-extent', 'actual-argument-larger-than-checked-extent',
+          'ubound-check-with-operator-other-than-lt-gt', 'ordinary-if-condition-mentions-ubound-of-assumed-shape-dummy']
+
+_ACTIVE = None     # names of the exclusions in force for this process
+
+
+class _ProbeCtx:
+    """collector with the part of the ctx interface the oracle uses"""
+    thorough = False
+
+    def __init__(self):
+        self.failures = {}
+        self.samples = [None, None]
+
+    def fail(self, sig, case, detail=''):
+        self.failures.setdefault(sig, {'detail': detail})
+
+    def case(self, *a, **k):
+        pass
+
+    count = sample = reject = exclude = note = case
+
+
+def active_exclusions():
+    """-> set of exclusion names (a pure function of the tree under test and the committed replays)"""
+    global _ACTIVE
+    if _ACTIVE is None:
+        import json
+        from ..core import VERIF_DIR
+        act = set(STATIC)
+        for name, path, sig in PROBED:
+            with open(os.path.join(VERIF_DIR, path)) as f:
+                case = json.load(f)['case']
+            sub = _ProbeCtx()
+            _with_workdir(case, sub, behaviour=False)
+            if sig in sub.failures:
+                act.add(name)
+        _ACTIVE = act
+    return _ACTIVE
+
+
+def _spells(tree):
+    """the spelling records {'s', 'tight'} of the relational operators in a condition / expression tree"""
+    if isinstance(tree, dict):
+        if set(tree) == {'s', 'tight'}:
+            yield tree
+        else:
+            for v in tree.values():
+                yield from _spells(v)
+    elif isinstance(tree, list):
+        for v in tree:
+            yield from _spells(v)
+
+
+def _old_style(trees):
+    return any(sp['s'] != 0 for sp in _spells(trees))
+
+
+def _to_f90(trees):
+    n = 0
+    for sp in _spells(trees):
+        if sp['s'] != 0:
+            sp['s'] = 0
+            n += 1
+    return n
+
+
+def _own(s):
+    """expression trees of a statement in which Fortran90OperatorsRule finds comparisons (its IR node is reported if one is old style)"""
+    k = s['k']
+    if k in ('assign', 'aassign'):
+        return [s.get('ref'), s['e']]
+    if k == 'lassign':
+        return [s['c']]
+    if k == 'if1':
+        return [s['c']]
+    if k == 'dowhile':
+        return [s['sp'], s['extra']]
+    if k == 'where1':
+        return [s['m']]
+    if k == 'where':
+        return [br['m'] for br in s['br']]
+    return []      # print (an Intrinsic node: text only), comment, call, do, string assignment; 'if' is handled per branch
+
+
+def _ir_nodes(body):
+    """
+    the statement list as loki nests it: [(own trees, child statement lists...)]; an IF construct with ELSE IF branches is a
+    chain of Conditional nodes, each ELSE IF being the only node in the else-body of the one before
+    """
+    out = []
+    for s in body:
+        k = s['k']
+        if k == 'if':
+            node = None
+            for bi in range(len(s['br']) - 1, -1, -1):
+                br = s['br'][bi]
+                children = _ir_nodes(br['b'])
+                if node is not None:
+                    children = children + [node]
+                elif s['else']:
+                    children = children + _ir_nodes(s['else'])
+                node = ([br['c']], children)
+            out.append(node)
+        elif k == 'if1':
+            out.append((_own(s), _ir_nodes([s['b']])))
+        elif k in ('do', 'dowhile'):
+            out.append((_own(s), _ir_nodes(s['b'])))
+        else:
+            out.append((_own(s), []))
+    return out
+
+
+def _walk_stmts(body, f):
+    """apply f to every statement (dict with 'k') of a statement list, recursively; f may replace the statement"""
+    for i, s in enumerate(body):
+        s = f(s) or s
+        body[i] = s
+        k = s['k']
+        if k == 'if':
+            for br in s['br']:
+                _walk_stmts(br['b'], f)
+            if s['else']:
+                _walk_stmts(s['else'], f)
+        elif k in ('do', 'dowhile'):
+            _walk_stmts(s['b'], f)
+        elif k == 'if1':
+            wrapped = [s['b']]
+            _walk_stmts(wrapped, f)
+            s['b'] = wrapped[0]
+
+
+def _bodies(model):
+    for r, _ in lintgen.all_routines(model):
+        yield r, r['body']
+        if r.get('member'):
+            yield r, r['member']['body']
+
+
+def _replace_ubound(tree, arrays):
+    """['ubound', a, d, upper] -> ['size', a] for the given arrays; -> number of replacements"""
+    n = 0
+    if isinstance(tree, list):
+        for i, v in enumerate(tree):
+            if isinstance(v, list) and len(v) == 4 and v[0] == 'ubound' and v[1] in arrays:
+                tree[i] = ['size', v[1]]
+                n += 1
+            else:
+                n += _replace_ubound(v, arrays)
+    elif isinstance(tree, dict):
+        for v in tree.values():
+            n += _replace_ubound(v, arrays)
+    return n
+
+
+def _strip_breaks(c):
+    n = 0
+    if isinstance(c, list):
+        if c and c[0] in ('and', 'or') and len(c) == 6 and c[3]:
+            c[3], c[4] = 0, None
+            n += 1
+        for v in c:
+            n += _strip_breaks(v)
+    return n
+
+
+def normalise(case, active):
+    """-> (case without the triggers of the listed root causes in `active`, {exclusion name: 1})"""
+    import copy
+    case = copy.deepcopy(case)
+    model = case['model']
+    hit = {}
+
+    def mark(name, n=1):
+        if n:
+            hit[name] = 1
+
+    # ---- DynamicUboundCheckRule (static)
+    for r, _ in lintgen.all_routines(model):
+        assumed = {a for a in ('x', 'z', 'y') if r['ub'][a]['mode'] != 'explicit'}
+        for a in ('x', 'z', 'y'):
+            sp = r['ub'][a]
+            if sp['mode'] not in ('full', 'partial'):
+                continue
+            if 'ubound-check-against-local-variable' in active and sp.get('bound') == 'local':
+                sp['bound'] = 'dummy'
+                mark('ubound-check-against-local-variable')
+            if 'ubound-check-against-smaller-extent' in active and sp.get('bound') == 'smaller':
+                sp['bound'] = 'dummy'
+                mark('ubound-check-against-smaller-extent')
+            if 'ubound-check-with-operator-other-than-lt-gt' in active:
+                for d in sp['dims']:
+                    if d['rel'] != 'lt':
+                        d['rel'] = 'lt'
+                        mark('ubound-check-with-operator-other-than-lt-gt')
+        if 'ordinary-if-condition-mentions-ubound-of-assumed-shape-dummy' in active and assumed:
+            def f(s, assumed=assumed):
+                if s['k'] == 'if1':
+                    mark('ordinary-if-condition-mentions-ubound-of-assumed-shape-dummy', _replace_ubound(s['c'], assumed))
+                elif s['k'] == 'if':
+                    for br in s['br']:
+                        mark('ordinary-if-condition-mentions-ubound-of-assumed-shape-dummy', _replace_ubound(br['c'], assumed))
+            _walk_stmts(r['body'], f)
+    if 'actual-argument-larger-than-checked-extent' in active and case.get('extra'):
+        case['extra'] = 0
+        mark('actual-argument-larger-than-checked-extent')
+
+    # ---- Fixer: contained procedures
+    if 'internal-procedures' in active:
+        for r, _ in lintgen.all_routines(model):
+            if r.get('member'):
+                r['member'] = None
+                mark('internal-procedures')
+
+                def f(s):
+                    if s['k'] == 'callm':
+                        return {'k': 'assign', 'v': s['v'], 'e': ['lit', 1], 'tc': s.get('tc')}
+                _walk_stmts(r['body'], f)
+    if 'module-procedures' in active and model.get('module'):
+        for r in model['module']['routines']:
+            r['kind'] = 'sub'      # (the generated driver only knows interfaces of external subroutines)
+        model['free'] = model['module']['routines'] + model.get('free', [])
+        model['module'] = None
+        mark('module-procedures')
+
+    # ---- conservative backend: one-line IF / WHERE
+    if 'one-line-if' in active or 'one-line-where' in active:
+        def f(s):
+            if s['k'] == 'if1' and 'one-line-if' in active:
+                mark('one-line-if')
+                return {'k': 'if', 'br': [{'c': s['c'], 'b': [s['b']], 'tc': s.get('tc')}], 'else': None, 'elseif_joined': False}
+            if s['k'] == 'where1' and 'one-line-where' in active:
+                mark('one-line-where')
+                return {'k': 'where', 'a': s['a'], 'br': [{'m': s['m'], 'r': [s['r']], 'tc': s.get('tc')}], 'else': None}
+        for r, body in _bodies(model):
+            _walk_stmts(body, f)
+        if 'one-line-if' in active:
+            for r, _ in lintgen.all_routines(model):
+                r['block_epilogue'] = True      # (always present: not counted)
+                for a in ('x', 'z', 'y'):
+                    if r['ub'][a].get('inline'):
+                        r['ub'][a]['inline'] = False
+                        mark('one-line-if')
+
+    # ---- conservative backend: an ELSE IF branch taken from source that is followed by another ELSE IF
+    if 'if-construct-with-two-or-more-else-if-branches' in active:
+        def f(s):
+            if s['k'] == 'if' and len(s['br']) >= 3:
+                del s['br'][1:-1]
+                mark('if-construct-with-two-or-more-else-if-branches')
+        for r, body in _bodies(model):
+            _walk_stmts(body, f)
+
+    # ---- conservative backend: a re-generated block IF below an ELSE IF / ELSE branch taken from source
+    if 'fixed-block-if-inside-else-if-branch' in active:
+        def inner(s):
+            if s['k'] == 'if':
+                mark('fixed-block-if-inside-else-if-branch', _to_f90(s['br'][0]['c']))
+
+        def f(s):
+            if s['k'] == 'if' and len(s['br']) >= 2:
+                for br in s['br'][1:]:
+                    _walk_stmts(br['b'], inner)
+                if s['else']:
+                    _walk_stmts(s['else'], inner)
+        for r, body in _bodies(model):
+            _walk_stmts(body, f)
+
+    # ---- Fixer / Fortran90OperatorsRule: reported node below an unreported node below a reported node
+    if 'old-style-operator-hidden-below-fixed-construct' in active:
+        def walk(nodes, state):
+            # state 0: no reported ancestor; 1: every node up to the nearest reported ancestor is reported; 2: hidden
+            for own, children in nodes:
+                rep = _old_style(own)
+                if rep and state == 2:
+                    mark('old-style-operator-hidden-below-fixed-construct', _to_f90(own))
+                    rep = False
+                walk(children, 1 if rep else (2 if state else 0))
+        for r, body in _bodies(model):
+            walk(_ir_nodes(body), 0)
+
+    # ---- conservative backend: header of a block whose node keeps its source (Fortran90OperatorsRule reports the node for sure
+    #      if an old-style operator stands on the first physical line of the condition)
+    if 'continued-header-of-unfixed-block' in active:
+        def f(s):
+            if s['k'] == 'if':
+                for br in s['br']:
+                    c = br['c']
+                    if not (c[0] in ('and', 'or') and c[3] and _old_style(c[1])):
+                        mark('continued-header-of-unfixed-block', _strip_breaks(c))
+            elif s['k'] == 'dowhile' and s.get('brk') and s['sp']['s'] == 0:
+                s['brk'] = 0
+                mark('continued-header-of-unfixed-block')
+        for r, body in _bodies(model):
+            _walk_stmts(body, f)
+    return case, hit
+
+
+# --------------------------------------------------------------------------
 # oracle
 # --------------------------------------------------------------------------
 
@@ -434,36 +766,6 @@ def build_and_run(workdir, tag, file_text, driver_text):
     return 'ok', q.stdout
 
 
-def enclosing_units(text):
-    """line -> 'module-procedure' / 'free-routine' / 'member-procedure' for every line of a file we generated"""
-    toks, _ = lex(text)
-    where = {}
-    stack = []
-    nlines = text.count('\n') + 1
-    starts = {}
-    for s, ln in statements(toks):
-        if s[0] in ('module',) and len(s) == 2:
-            stack.append('module')
-        elif s[0] in ('subroutine', 'function'):
-            stack.append('routine')
-        elif s[0] in ('endmodule', 'endsubroutine', 'endfunction'):
-            if stack:
-                stack.pop()
-        depth_r = stack.count('routine')
-        if depth_r >= 2:
-            kind = 'member-procedure'
-        elif depth_r == 1:
-            kind = 'module-procedure' if 'module' in stack else 'free-routine'
-        else:
-            kind = 'module' if stack else 'file'
-        starts[ln] = kind
-    cur = 'file'
-    for ln in range(1, nlines + 1):
-        cur = starts.get(ln, cur)
-        where[ln] = cur
-    return where
-
-
 def _mentions_ubound(tree, arr):
     if isinstance(tree, list):
         if len(tree) >= 2 and tree[0] == 'ubound' and tree[1] == arr:
@@ -498,6 +800,8 @@ def ground_truth(case):
     for r, w in lintgen.all_routines(model):
         for a in ('x', 'z', 'y'):
             sp = r['ub'][a]
+            if sp['mode'] != 'explicit' and any(_mentions_ubound(c, a) for c in _if_conditions(r['body'])):
+                flags.add('ordinary-condition-mentions-ubound')
             if lintgen.will_be_fixed(sp):
                 fixed_dummies.append((r['name'], a, w))
                 if sp.get('bound') == 'local':
@@ -506,23 +810,159 @@ def ground_truth(case):
                     flags.add('bound-smaller')
                 if any(d['rel'] == 'ne' for d in sp['dims']):
                     flags.add('rel-ne')
-                if any(_mentions_ubound(c, a) for c in _if_conditions(r['body'])):
-                    flags.add('ordinary-condition-mentions-ubound')
     return text, rc, fixed_dummies, flags
 
 
 def check_case(case, ctx):
+    """search entry point: the triggers of the listed root causes are removed from the drawn case first"""
+    case, excluded = normalise(case, active_exclusions())
+    for name in sorted(excluded):
+        ctx.exclude('known:' + name)
+    _with_workdir(case, ctx)
+
+
+def _with_workdir(case, ctx, behaviour=True):
     scratch = os.environ.get('LOKIVERIF_SCRATCH') or os.environ.get('TMPDIR') or '/tmp'
     work = os.path.join(scratch, f'c43.{os.getpid()}')
     shutil.rmtree(work, ignore_errors=True)
     os.makedirs(work)
     try:
-        _check(case, ctx, work)
+        _check(case, ctx, work, behaviour)
     finally:
         shutil.rmtree(work, ignore_errors=True)
 
 
-def _check(case, ctx, work):
+# ---- root causes recognised from the texts (consulted in this order) ----------------------------------------
+
+def _paren_end(s, i):
+    """index of the parenthesis closing s[i] == '(' in a token tuple, or None"""
+    depth = 0
+    for j in range(i, len(s)):
+        depth += (s[j] == '(') - (s[j] == ')')
+        if depth == 0:
+            return j
+    return None
+
+
+def broken_file_causes(text, rc, expected, fixed):
+    """
+    -> [(sig, detail)] for the listed defects of the conservative backend that leave a file that is not Fortran any more
+    (everything the other oracles would report on such a file is a consequence)
+    """
+    out = []
+    try:
+        act = statements(lex(fixed)[0])
+    except LexError:
+        act = []
+    # 1./2. `IF (c) if (c') stmt` and `WHERE (m) where (m') a = b`: the statement of a one-line IF / WHERE is written with the
+    #       source line of the whole IF / WHERE statement
+    for s, ln in act:
+        if len(s) > 3 and s[0] in ('if', 'where') and s[1] == '(':
+            j = _paren_end(s, 1)
+            if j is not None and s[j + 1:j + 3] == (s[0], '('):
+                sig = SIG_IF1 if s[0] == 'if' else SIG_WHERE1
+                if sig not in [x for x, _ in out]:
+                    out.append((sig, f'line {ln}: {fixed.splitlines()[ln - 1].strip()}'))
+    # 3. a re-generated block IF is written as ELSE IF: more END IF than IF..THEN, surplus of ELSE IF over the expected text
+    def counts(sts):
+        return (sum(1 for s, _ in sts if s[0] == 'if' and s[-1] == 'then'), sum(1 for s, _ in sts if s[0] == 'elseif'),
+                sum(1 for s, _ in sts if s[0] == 'endif'))
+    if act:
+        n_if, n_elseif, n_endif = counts(act)
+        e_if, e_elseif, e_endif = counts(statements(lex(expected)[0]))
+        if n_endif > n_if and n_elseif > e_elseif:
+            ln = next((ln for s, ln in act if s[0] == 'elseif' and 'ELSE IF' in fixed.splitlines()[ln - 1]), 0)
+            out.append((SIG_ELSEIF, f'{n_if} IF..THEN, {n_elseif} ELSE IF, {n_endif} END IF statements (expected {e_if}, {e_elseif}, {e_endif}); '
+                        f'line {ln}: {fixed.splitlines()[ln - 1].strip() if ln else ""}'))
+    # 4. the first physical line of a continued IF..THEN / ELSE IF / DO WHILE header is there, its continuation line is not
+    ol, fl = text.split('\n'), fixed.split('\n')
+    fstripped = [x.strip() for x in fl]
+    for i in rc.cont_block_heads:
+        head, cont = ol[i].strip(), ol[i + 1].strip()
+        for j, x in enumerate(fstripped):
+            if x == head and (j + 1 >= len(fl) or fstripped[j + 1] != cont):
+                out.append((SIG_CONTHEAD, f'line {j + 1}: `{head}` is followed by `{fstripped[j + 1] if j + 1 < len(fl) else ""}`'))
+                break
+        if out and out[-1][0] == SIG_CONTHEAD:
+            break
+    return out
+
+
+def routine_texts(text):
+    """name -> (kind, [stripped lines]) for every procedure of a file (kind: module-procedure / free-routine / member-procedure)"""
+    toks, _ = lex(text)
+    lines = text.split('\n')
+    out, stack = {}, []
+    for s, ln in statements(toks):
+        if s[0] == 'module' and len(s) == 2:
+            stack.append(('module', None, ln))
+        elif s[0] in ('subroutine', 'function'):
+            stack.append(('routine', s[1], ln))
+        elif s[0] in ('endmodule', 'endsubroutine', 'endfunction') and stack:
+            what, name, start = stack.pop()
+            if what == 'routine':
+                outer = [w for w, _, _ in stack]
+                kind = 'member-procedure' if 'routine' in outer else ('module-procedure' if 'module' in outer else 'free-routine')
+                out[name] = (kind, [x.strip() for x in lines[start - 1:ln]], start, ln)
+    return out
+
+
+def enclosing_headers(text):
+    """line -> list of the token tuples of all block headers (IF / ELSE IF / DO WHILE / WHERE ...) the statement starting there lies in"""
+    out, stack = {}, []      # stack of constructs; a construct is the list of its header statements seen so far
+    for s, ln in statements(lex(text)[0]):
+        cls = stmt_class(s)
+        if s[0] in ('elseif', 'else', 'elsewhere') and stack:
+            out[ln] = [h for c in stack for h in c]
+            stack[-1].append(s)
+            continue
+        if s[0] in ('endif', 'enddo', 'endwhere') and stack:
+            stack.pop()
+            out[ln] = [h for c in stack for h in c]
+            continue
+        if s[0] in ('subroutine', 'function', 'endsubroutine', 'endfunction', 'contains'):
+            stack = []
+        out[ln] = [h for c in stack for h in c]
+        if cls.startswith('if-then') or cls in ('do', 'do-while', 'where-construct'):
+            stack.append([s])
+    return out
+
+
+def classify_relint(rule, line, text, fixed, ftoks):
+    """signature of a violation that a fixed rule still reports after the fix (recognisers in fixed order)"""
+    fl = fixed.split('\n')
+    if rule == 'Fortran90OperatorsRule' and ftoks is not None and \
+            not [t for t in ftoks if t.line == line and t.kind == 'op' and t.text in RELOPS]:
+        # the rule matches its patterns on the raw source line, string literals included
+        return 'C43:relint:Fortran90OperatorsRule:no-old-operator-token-on-reported-line'
+    try:
+        before, after = routine_texts(text), routine_texts(fixed)
+    except LexError:
+        return f'C43:relint:{rule}:?'
+    unit = '?'
+    for name, (kind, lines, start, end) in sorted(after.items(), key=lambda kv: kv[1][3] - kv[1][2]):
+        if line is not None and start <= line <= end:       # innermost procedure first
+            unit = kind
+            if name in before and before[name][1] == lines:
+                # Fixer never got to this procedure: not one statement of it was touched
+                return f'C43:relint:procedure-left-unfixed:{kind}'
+            break
+    if rule == 'Fortran90OperatorsRule' and line is not None:
+        ol = text.split('\n')
+        sm = difflib.SequenceMatcher(None, [x.strip() for x in ol], [x.strip() for x in fl], autojunk=False)
+        l0 = None
+        for i, j, n in sm.get_matching_blocks():
+            if j <= line - 1 < j + n:
+                l0 = i + (line - 1 - j) + 1
+        if l0 is not None:
+            heads = enclosing_headers(text).get(l0)
+            if heads and any(t in RELOPS for h in heads for t in h):
+                # an unreported node with valid source lies between a reported block and the reported statement
+                return SIG_NESTED
+    return f'C43:relint:{rule}:{unit}'
+
+
+def _check(case, ctx, work, behaviour=True):
     model = case['model']
     text, rc, fixed_dummies, flags = ground_truth(case)
     expected, _ = lintgen.render_file(model, fixed=True)
@@ -549,10 +989,13 @@ def _check(case, ctx, work):
         classes.append('unit:internal-procedure')
     if any(r['kind'] == 'func' for r, _ in routines):
         classes.append('unit:function')
+    dumped = _dump(model)
     for kind, label in (('if1', 'stmt:one-line-if'), ('where1', 'stmt:where-statement'), ('where', 'stmt:where-construct'),
-                        ('dowhile', 'stmt:do-while'), ('"k": "if"', 'stmt:if-construct')):
-        if (f'"k": "{kind}"' if not kind.startswith('"') else kind) in _dump(model):
+                        ('dowhile', 'stmt:do-while'), ('if', 'stmt:if-construct'), ('do', 'stmt:do')):
+        if f'"k": "{kind}"' in dumped:
             classes.append(label)
+    if '"elseif_joined"' in dumped and any(len(s['br']) > 1 for _, body in _bodies(model) for s in _all_stmts(body) if s['k'] == 'if'):
+        classes.append('stmt:else-if')
     for fl in sorted(flags):
         classes.append(f'ubound:{fl}')
     if case['extra']:
@@ -566,8 +1009,8 @@ def _check(case, ctx, work):
         f.write(text)
 
     def fail(sig, detail):
-        if 'ordinary-condition-mentions-ubound' in flags and sig.split(':')[1] in ('text', 'behaviour', 'string-literal', 'comment'):
-            # one root cause: the UBOUND rule takes any IF whose condition mentions ubound(<checked dummy>, d) for the check
+        if 'ordinary-condition-mentions-ubound' in flags and sig.split(':')[1] in ('text', 'behaviour', 'string-literal', 'comment', 'relint'):
+            # one root cause: the UBOUND rule takes any IF whose condition mentions ubound(<assumed-shape dummy>, d) for a check
             sig = 'C43:ubound-fix:ordinary-conditional-mentioning-ubound-treated-as-check'
         ctx.fail(sig, case, detail)
 
@@ -583,11 +1026,18 @@ def _check(case, ctx, work):
         return
     with open(path) as f:
         fixed = f.read()
-    if not [it for it in items]:
+    if not items:
         ctx.count('lint:nothing-reported')
     if n_viol == 0 and not items:
         if fixed != text:
             fail('C43:text:file-without-violations-rewritten', _first_diff(text, fixed))
+        return
+
+    # 0. listed defects that leave a file that is not Fortran
+    broken = broken_file_causes(text, rc, expected, fixed)
+    if broken:
+        for sig, detail in broken:
+            fail(sig, detail)
         return
 
     # 1. re-lint
@@ -596,19 +1046,12 @@ def _check(case, ctx, work):
         fail(f'C43:relint-raises:{stage2}:{exc_bucket(exc2)}', f'{type(exc2).__name__}: {exc2}'[:500])
     else:
         try:
-            where = enclosing_units(fixed)
             ftoks, _ = lex(fixed)
         except LexError:
-            where, ftoks = {}, []
+            ftoks = None
         for rule, msg, line in items2:
-            w = where.get(line, '?')
-            extra = ''
-            if rule == 'Fortran90OperatorsRule':
-                ops_on_line = [t for t in ftoks if t.line == line and t.kind == 'op' and t.text in RELOPS]
-                if not ops_on_line:
-                    extra = ':no-old-operator-token-on-reported-line'
-            fail(f'C43:relint:{rule}:no-old-operator-token-on-reported-line' if extra else f'C43:relint:{rule}:{w}',
-                 f'after fix: {rule} still reports "{msg}" at line {line}')
+            fail(classify_relint(rule, line, text, fixed, ftoks),
+                 f'after fix: {rule} still reports "{msg}" at line {line}: {fixed.splitlines()[line - 1].strip() if line else ""}')
 
     # 2. tokens, strings, comments against the expected fixed text
     try:
@@ -643,38 +1086,10 @@ def _check(case, ctx, work):
                         fail('C43:string-literal:' + {'replace': 'value-changed', 'delete': 'lost', 'insert': 'added'}[tag],
                              f'expected {exp_str[i1:i2]} got {act_str[j1:j2]}')
                         break
-        ec = [c['text'] for c in exp_com]
-        ac = [c['text'] for c in act_com]
-        if ec != ac:
-            sm = difflib.SequenceMatcher(None, ec, ac, autojunk=False)
-            for tag, i1, i2, j1, j2 in sm.get_opcodes():
-                if tag == 'equal':
-                    continue
-                if tag in ('replace', 'delete'):
-                    c0 = exp_com[i1]
-                    ctxt = c0['ctx']
-                    exp_line = expected.split('\n')[c0['line'] - 1]
-                    if tag == 'replace' and ctxt == 'trail' and any('!' in t.text for t in lex(exp_line)[0] if t.kind == 'str'):
-                        ctxt = 'trailing-a-statement-with-exclamation-mark-in-string'
-                    elif ctxt == 'trail':
-                        ctxt = 'trailing:' + _stmt_class_at(exp, exp_lines, c0['line'])
-                    elif ctxt == 'cont':
-                        ctxt = 'inside-continued-statement'
-                    else:
-                        ctxt = 'own-line'
-                    fail(f'C43:comment:{"changed" if tag == "replace" else "lost"}:{ctxt}',
-                         f'expected comments {ec[i1:i2]} got {ac[j1:j2]}')
-                else:
-                    prev = next((c for c in (exp_com[i1 - 1] if i1 > 0 else None, exp_com[i1] if i1 < len(exp_com) else None)
-                                 if c is not None and all(x == c['text'] for x in ac[j1:j2])), None)
-                    if prev is not None:
-                        where_ = ('trailing:' + _stmt_class_at(exp, exp_lines, prev['line'])) if prev['ctx'] == 'trail' else prev['ctx']
-                        fail(f'C43:comment:duplicated:{where_}', f'comment {prev["text"]!r} appears {1 + j2 - j1} times')
-                    else:
-                        fail('C43:comment:added', f'unexpected comments {ac[j1:j2]}')
+        compare_comments(expected, exp, exp_lines, exp_com, act_com, fail)
 
     # 3. behaviour
-    if os.environ.get('LOKIVERIF_C43_TEXT_ONLY'):     # development aid: triage of the text oracles on a loaded box
+    if not behaviour or os.environ.get('LOKIVERIF_C43_TEXT_ONLY'):     # (probes; development aid on a loaded box)
         return
     before = build_and_run(work, 'before', text, lintgen.render_driver(model, case['inputs'], False, case['extra']))
     if before[0] != 'ok':
@@ -693,6 +1108,65 @@ def _check(case, ctx, work):
     elif after[1] != before[1]:
         fail('C43:behaviour:output-differs' + (':declared-extent-smaller-than-actual' if shrunk else ''),
              _first_diff(before[1], after[1]))
+
+
+def _all_stmts(body):
+    for s in body:
+        yield s
+        if s['k'] == 'if':
+            for br in s['br']:
+                yield from _all_stmts(br['b'])
+            if s['else']:
+                yield from _all_stmts(s['else'])
+        elif s['k'] in ('do', 'dowhile'):
+            yield from _all_stmts(s['b'])
+        elif s['k'] == 'if1':
+            yield s['b']
+
+
+def compare_comments(expected, exp, exp_lines, exp_com, act_com, fail):
+    ec = [c['text'] for c in exp_com]
+    ac = [c['text'] for c in act_com]
+    if ec == ac:
+        return
+    sm = difflib.SequenceMatcher(None, ec, ac, autojunk=False)
+    for tag, i1, i2, j1, j2 in sm.get_opcodes():
+        if tag == 'equal':
+            continue
+        if tag in ('replace', 'delete'):
+            c0 = exp_com[i1]
+            ctxt = c0['ctx']
+            exp_line = expected.split('\n')[c0['line'] - 1]
+            if tag == 'replace' and ctxt == 'trail' and any('!' in t.text for t in lex(exp_line)[0] if t.kind == 'str'):
+                ctxt = 'trailing-a-statement-with-exclamation-mark-in-string'
+            elif ctxt == 'trail':
+                ctxt = 'trailing:' + _stmt_class_at(exp, exp_lines, c0['line'])
+            elif ctxt == 'cont':
+                ctxt = 'inside-continued-statement'
+            else:
+                ctxt = 'own-line'
+            fail(f'C43:comment:{"changed" if tag == "replace" else "lost"}:{ctxt}',
+                 f'expected comments {ec[i1:i2]} got {ac[j1:j2]}')
+            continue
+        # inserted comments: a comment that follows a statement on its line is written once more on a line of its own when the
+        # statement's source line is re-used (it contains the comment) next to the separate comment node
+        new = act_com[j1:j2]
+        t = new[0]['text']
+        lo, hi = j1, j2
+        if all(c['text'] == t for c in new):
+            while lo > 0 and act_com[lo - 1]['text'] == t:
+                lo -= 1
+            while hi < len(act_com) and act_com[hi]['text'] == t:
+                hi += 1
+        group = act_com[lo:hi]
+        pair = any(act_com[k]['ctx'] in ('trail', 'cont') and act_com[k + 1]['ctx'] == 'own' and (j1 <= k < j2 or j1 <= k + 1 < j2)
+                   for k in range(lo, hi - 1))
+        if pair:
+            fail('C43:comment:duplicated:trailing-comment-repeated-on-a-line-of-its-own', f'comment {t!r} appears {len(group)} times')
+        elif len(group) > len(new):
+            fail('C43:comment:duplicated:other', f'comment {t!r} appears {len(group)} times ({[c["ctx"] for c in group]})')
+        else:
+            fail('C43:comment:added', f'unexpected comments {ac[j1:j2]}')
 
 
 def _drop_blocks(text, codes):
@@ -806,5 +1280,5 @@ def run_shard(ctx):
 
 
 def replay(case, ctx):
-    check_case(case, ctx)
+    _with_workdir(case, ctx)     # (as stored: the replays keep the triggers that the search excludes)
     return [(s, e['detail']) for s, e in ctx.failures.items()]
